@@ -522,6 +522,34 @@ def run(ctx):
                "block and offset must be computed from the same index: block_index(%s) vs block_offset(%s)" % (a_i, a_o))
     ctx.floor("C04.R7", n7, 6, "meta records and index users")
 
+    # -------------------------------------------------- R8 the range written by fill_n / copy_n is reserved first
+    n8 = 0
+    for fn in fb.find(pred=lambda f: is_vec(f) and f.has_cfg() and not f.lambda_ and f.name in ("fill_n", "copy_n")):
+        ig = IG(fn, inline=lambda a, b, c: False)
+        live = ig.live_nodes()
+        res = [n for n in L.call_nodes(ig, name="reserved_snapshot", live=live)]
+        ops = [n for n in ig.ev_nodes() if n.id in live and n.ev["e"] == "call" and n.ev.get("name") == fn.name and n.ev.get("cid") is not None and
+               "Snapshot" in (n.ev.get("callee") or "")]
+        if not res or not ops:
+            continue
+        n8 += 1
+        op = ops[0]
+        callee = fn.tu.fns.get(op.ev["cid"])
+        names = [p_.get("name") for p_ in callee.params] if callee is not None else []
+        ok = False
+        why = "cannot identify the (offset, size) arguments of the snapshot operation"
+        if "offset" in names and ("size" in names or "num" in names):
+            off = L.linear(ig, op.ev["args"][names.index("offset")], op.frame)
+            cnt = L.linear(ig, op.ev["args"][names.index("size") if "size" in names else names.index("num")], op.frame)
+            need = L.lin_add(off, cnt)
+            got = L.linear(ig, res[0].ev["args"][0], res[0].frame)
+            ok = L.lin_eq(need, got) and ig.dominated_by(op, res)
+            why = "reserved %s, written range ends at %s" % (got, need)
+        ctx.ob("C04.R8", L.short(fn)[:100], ok, fn.loc,
+               "the blocks of the whole range [offset, offset + size) must exist before the snapshot operation walks it: %s - the walk "
+               "otherwise reads block pointers past the table and writes objects the vector never constructed" % why)
+    ctx.floor("C04.R8", n8, 2, "fill_n / copy_n instances")
+
 SWEEP = ["concurrent/test_vector.cpp",
          "concurrent/test_thread_local.cpp",
          "concurrent/test_object_pool.cpp"]
